@@ -139,7 +139,7 @@ def eval_monad_format(a, backend):
                     $:foo  -->  ":foo"
 
     """
-    return f":{a}" if isinstance(a, KGSym) else backend.vec_fn(a, lambda x: eval_monad_format(x, backend)) if is_list(a) else str(a)
+    return f":{a}" if isinstance(a, KGSym) else backend.rec_fn(a, lambda x: eval_monad_format(x, backend)) if is_list(a) else str(a)
 
 
 def eval_monad_grade_up(a, backend):
